@@ -246,6 +246,8 @@ SUBS = [{'kind': 'unset'}, {'kind': 'value', 'v': None}, {'kind': 'value', 'v': 
         {'kind': 'value', 'v': False}, {'kind': 'value', 'v': 7}, {'kind': 'value', 'v': ['x', 1]},
         {'kind': 'callable', 'v': 5}, {'kind': 'callable', 'v': 0}]
 DEFAULTS = [None, 0, '', {'t': 'tuple', 'v': [1, 2]}, False]
+LONG_ALIASES = [u'\u0434\u0430\u043d\u043d\u044b\u0435' * 50, u'x' + u'\u0434\u0430\u043d\u043d\u044b\u0435' * 50,
+                u'\u4e2d\u6587' * 120, u'ab' + u'\u4e2d\u6587' * 120]
 
 
 @st.composite
@@ -253,6 +255,12 @@ def pairs(draw):
     vals = st.one_of(st.integers(0, 3), V.small_values)
     ins, outs = PS.fix_decls(draw(st.lists(PS.input_decls(), min_size=1, max_size=3)),
                              draw(st.lists(PS.output_decls(), max_size=2)))
+    # long non-ASCII aliases: the text of a missing-key error then runs to several hundred bytes of multi-byte characters
+    if draw(st.sampled_from([False, False, False, True])):
+        taken = set(d['alias'] for d in ins)
+        long_alias = draw(st.sampled_from(LONG_ALIASES))
+        if long_alias not in taken:
+            ins[draw(st.integers(0, len(ins) - 1))]['alias'] = long_alias
     steps = draw(PS.step_lists(ins, outs, vals, 7, ('ret', 'ret', 'raise'), ('ret', 'ret', 'raise'), threads=False))
     steps = [s for s in steps]
     # "twin" declarations: the recorded program already calls an input under the NEW alias as well (both the old and the
